@@ -176,7 +176,7 @@ def rand_script(rng: random.Random, gen: int, length: int, profile: str = "mixed
         kind = rng.choices(kinds, ws)[0]
         if kind == "send":
             k = rng.choice(ok_ks) if rng.random() < 0.85 else rng.randrange(ncat)
-            s.append(("send", k, rng.choice([0, 0, 1, 2, 2, 3])))
+            s.append(("send", k, rng.choice([0, 0, 1, 2, 2, 3, 4])))
         elif kind == "send2":
             s.append(("send2", rng.choice(ok_ks), rng.choice([0, 1, 2, 3]),
                       rng.choice(ok_ks), rng.choice([0, 1, 2, 3])))
